@@ -225,7 +225,7 @@ Proof.
                 | PHNeedMore => Ok HNeedMore
                 | PHErr e => Ok (HErr e)
                 | PHOk st n =>
-                    let hd := mk_req_head l st in
+                    let hd := mk_req_head l st (raw_of rest (length rest)) in
                     if http11 hd && (length (Host cfg hd) =? 0) then Ok (HErr EHostRequired)
                     else Ok (HOk (hd, length pre + n))
                 end
@@ -238,7 +238,8 @@ Proof.
     rewrite slice_from by (subst H; rewrite !app_length; lia).
     subst H. rewrite <- app_assoc, skipn_app_exact. cbn [bind].
     rewrite readRawHeaders_spec. cbn [bind].
-    rewrite (head_len_aux_app _ _ _ _ _ z Hr). reflexivity. }
+    rewrite (head_len_aux_app _ _ _ _ _ z Hr). cbn [raw_res].
+    rewrite (raw_of_app rest z Hr). reflexivity. }
   pose proof (Hmain []) as H0. rewrite !app_nil_r in H0. rewrite (Hmain s), H0. clear H0 Hmain.
   destruct (req_line_parse line (length pre)) as [fl| |] eqn:Efl; cbn [bind]; try (split; [reflexivity|discriminate]).
   destruct fl as [|e|l]; try (split; [reflexivity|discriminate]).
